@@ -14,7 +14,7 @@ V = '/verif'
 
 
 def seed_rows():
-    rows, stats = [], {'n': 0, 'any': 0, 'target': 0, 'target_nv': 0}
+    rows, stats = [], {'n': 0, 'any': 0, 'target': 0, 'target_nv': 0, 'none': []}
     for sid in sorted(os.listdir(V + '/seeded')):
         mp = os.path.join(V, 'seeded', sid, 'meta.json')
         if not os.path.exists(mp):
@@ -27,6 +27,8 @@ def seed_rows():
         tgt = 'yes' if m['breaks_property'] in fired else ('no verdict' if m['breaks_property'] in nv else 'no')
         stats['n'] += 1
         stats['any'] += bool(fired)
+        if not fired:
+            stats['none'].append('`%s`' % sid)
         stats['target'] += tgt == 'yes'
         stats['target_nv'] += tgt == 'no verdict'
         rows.append('| `%s` | %s | %s | %s | %s | %s |' % (sid, m['breaks_property'], what, ', '.join(fired) or '-', tgt, ', '.join(nv) or '-'))
@@ -89,8 +91,8 @@ def main():
                '`ANALYSIS-BROKEN` (exit 2) - typically because the change makes one machine write the other\'s\n'
                'fields, which C11 reports and which voids the per-machine analysis of the others (8.1).\n'
                'Several defects violate more than one property and are then reported by those checks as well.\n')
-    out.append('%d seeds; every one is reported by at least one check (%d), %d by the check of the targeted property, %d more end that check without a verdict.\n'
-               % (st['n'], st['any'], st['target'], st['target_nv']))
+    out.append('%d seeds; %d are reported by at least one check, %d by the check of the targeted property, %d more end that check without a verdict.%s\n'
+               % (st['n'], st['any'], st['target'], st['target_nv'], '' if st['any'] == st['n'] else ' Not reported by any check: ' + ', '.join(st['none']) + '.'))
     out.append('| seed | targets | change (from the author\'s README) | checks that report a violation | target check | checks without a verdict |')
     out.append('|---|---|---|---|---|---|')
     out.extend(rows)
